@@ -3,6 +3,8 @@ import Hgxv.Proofs.C17Book
 import Hgxv.Proofs.C17EM
 import Hgxv.Proofs.C17Ex
 import Hgxv.Proofs.C17Norm
+import Hgxv.Proofs.C17Ext
+import Hgxv.Proofs.C17Lap
 /-! # C17 — Hypergraph-MT / spectral clustering: valid reproducible output, EM ascends
 
 Property theorems about the model `Hgxv/Model/C17.lean`.  The numerical definitions of the model are generic in the
@@ -330,3 +332,245 @@ example : negNew cNorm sNorm 0 = false ∧ 1 - (cNorm.K : ℚ) * cNorm.minv ≤ 
     sNorm sNorm_inv 0 (by decide) sNorm_num sNorm_lamOk
   ⟨h.1, h.2.2.1⟩
 example : sumR cNorm.K (vNew cNorm sNorm 0) = 1 := by decide +kernel
+
+/-! # Extension round: what used to be a parameter of the model
+
+The initial `u0`, `w0` are computed from the RAW outputs of `prng.random_sample` (`Model/C17Ext.lean`: `randU0`,
+`randW0`, `addNoise`, `initFromDraws`), the clamps of `_update_u` are a function with its algebra (`clampU`), the
+termination logic of `fit` is characterised for every `check_convergence_every`, and the Laplacian of `HySC` is inside the
+model (`lap`, the square root being its only parameter). -/
+
+section ext
+variable {α : Type} [Field α] [LinearOrder α] [IsStrictOrderedRing α]
+
+/-- **`_randomize_w0`.**  The initial affinity of size `d + 2` and community `k` is the raw draw when some hyperedge has
+that size and exactly `0` otherwise (such a row then stays out of every likelihood term); with draws `≥ 0`
+(`random_sample`) the whole matrix is non-negative. -/
+theorem C17_randW0_spec (c : Cfg α) (dw : Mat α) :
+    (∀ d k, d < c.D - 1 → k < c.K →
+      at2 (randW0 c dw) d k = if (∃ e, e < c.E ∧ (c.edge e).length = d + 2) then at2 dw d k else 0) ∧
+    ((∀ d k, d < c.D - 1 → k < c.K → 0 ≤ at2 dw d k) → ∀ d k, 0 ≤ at2 (randW0 c dw) d k) := by
+  refine ⟨?_, fun h d k => randW0_nonneg c dw h d k⟩
+  intro d k hd hk
+  rw [randW0_at c dw d k hd hk]
+  by_cases h : sizePresent c d = true
+  · rw [if_pos h, if_pos ((sizePresent_iff c d).mp h)]
+  · rw [if_neg h, if_neg (fun h' => h ((sizePresent_iff c d).mpr h'))]
+
+/-- **`_randomize_u0`.**  From non-negative raw draws: every entry is non-negative, and every row whose draws have a
+positive sum sums to exactly one. -/
+theorem C17_randU0_stochastic (c : Cfg α) (du : Mat α) (h : ∀ i k, i < c.N → k < c.K → 0 ≤ at2 du i k) :
+    (∀ i k, 0 ≤ at2 (randU0 c du) i k) ∧
+    (∀ i, i < c.N → 0 < sumR c.K (fun k => at2 du i k) → sumR c.K (fun k => at2 (randU0 c du) i k) = 1) :=
+  ⟨fun i k => randU0_nonneg c du h i k, fun i hi hs => randU0_rowsum c du i hi hs⟩
+
+/-- **start around the spectral solution** (`baseline_r0`, realisation 0; also `_add_noise_input`).  For a non-negative
+matrix `X` (the 0/1 matrix of `HySC`), noise level `≥ 0` and draws `≥ 0`: `np.max` bounds every entry, no entry is
+decreased, and when `X` has a positive entry, the noise level and the draws are positive, every entry is positive. -/
+theorem C17_baseline_start (n m : Nat) (noise : α) (X dr : Mat α) (hX : ∀ i k, 0 ≤ at2 X i k) :
+    (∀ i k, i < n → k < m → at2 X i k ≤ matMax n m X) ∧
+    (0 ≤ noise → (∀ i k, i < n → k < m → 0 ≤ at2 dr i k) →
+      ∀ i k, i < n → k < m → at2 X i k ≤ at2 (addNoise n m noise X dr) i k) ∧
+    (0 < noise → (∃ i k, i < n ∧ k < m ∧ 0 < at2 X i k) → (∀ i k, i < n → k < m → 0 < at2 dr i k) →
+      ∀ i k, i < n → k < m → 0 < at2 (addNoise n m noise X dr) i k) :=
+  ⟨fun i k hi hk => le_matMax n m X i k hi hk,
+   fun hn hd i k hi hk => addNoise_ge n m noise hn X dr hX hd i k hi hk,
+   fun hn h1 hd i k hi hk => addNoise_pos n m noise hn X dr hX h1 hd i k hi hk⟩
+
+/-- **the clamps of `_update_u` as a function** (`clampU x` = low clamp, then high clamp).  The result is `0` or at least
+`min_value_par`, and at most `max(max_value_par, 1e2)`; clamping twice is clamping once; and the map is monotone when
+the value written at the upper clamp is not below the bound (`1e2` for the default `max_value_par = 1e2`). -/
+theorem C17_clamp_algebra (c : Cfg α) (hc : CfgOk c) :
+    (∀ x, clampU c x = 0 ∨ c.minv ≤ clampU c x) ∧
+    (∀ t v, c.maxv = some (t, v) → ∀ x, clampU c x ≤ max t v) ∧
+    (∀ x, clampU c (clampU c x) = clampU c x) ∧
+    ((∀ t v, c.maxv = some (t, v) → t ≤ v) → ∀ x y, x ≤ y → clampU c x ≤ clampU c y) ∧
+    (∀ x, c.minv ≤ x → (∀ t v, c.maxv = some (t, v) → x ≤ t) → clampU c x = x) := by
+  refine ⟨clampU_zero_or c hc, fun t v hm x => clampU_le c t v hm x, clampU_idem c hc, ?_, ?_⟩
+  · intro hv x y hxy
+    exact clampHigh_mono c hv _ _ (clampLow_mono c hc x y hxy)
+  · intro x hx hm
+    unfold clampU
+    rw [clampLow_fix c x (Or.inr hx)]
+    unfold clampHigh
+    cases h : c.maxv with
+    | none => rfl
+    | some tv => obtain ⟨t, v⟩ := tv; simp only; rw [if_neg (not_lt.mpr (hm t v h))]
+
+/-- the new row written by a node update is the clamp of the unclamped value (`vNew` is `clampU` of it) -/
+theorem C17_vNew_clamped (c : Cfg α) (hc : CfgOk c) (s : St α) (i k : Nat) :
+    clampU c (vNew c s i k) = vNew c s i k := by
+  unfold vNew; exact clampU_idem c hc _
+
+/-- **the Laplacian of `HySC._extract_laplacian`** (binary or `weighted_L`, any function in place of `sqrt`) is symmetric,
+and the row and the column of an isolated node are those of the identity (the code then restricts to `non_isolates`). -/
+theorem C17_lap_symm (c : Cfg α) (sq : α → α) (wl : Bool) :
+    (∀ i j, at2 (lap c sq wl) i j = at2 (lap c sq wl) j i) ∧
+    (∀ i j, i < c.N → j < c.N → degN c i = 0 →
+      at2 (lap c sq wl) i j = (if i = j then 1 else 0) ∧ at2 (lap c sq wl) j i = (if i = j then 1 else 0)) := by
+  refine ⟨lap_symm c sq wl, fun i j hi hj h0 => ⟨lap_isolated c sq wl i j hi hj h0, ?_⟩⟩
+  rw [lap_symm c sq wl j i]; exact lap_isolated c sq wl i j hi hj h0
+
+/-- **`L · sqrt(degree) = 0`.**  For the binary Laplacian of a hypergraph whose hyperedges are non-empty lists of distinct
+node indices `< N` (columns of the incidence matrix) and any `sq` with `sq(x)² = x` on `x ≥ 0`: the vector
+`degree_j · sq(1/degree_j)` (`= sqrt(degree_j)`, `0` for isolated nodes) is annihilated by every row of `L` - the trivial
+eigenvector that `extract_eigenvectors` drops (`sorted_indices[1:K]`). -/
+theorem C17_lap_kernel (c : Cfg α) (hE : EdgesOk c) (sq : α → α) (hsq : ∀ x, 0 ≤ x → sq x * sq x = x) (i : Nat)
+    (hi : i < c.N) :
+    sumR c.N (fun j => at2 (lap c sq false) i j * ((degN c j : α) * invS c sq j)) = 0 :=
+  lap_kernel c hE sq hsq i hi
+
+end ext
+
+/-- **ascent from the raw draws.**  `C17_ascent_run` with its hypotheses on `u0`, `w0` discharged: start from the raw
+outputs of `random_sample` - `uk ≥ 0`, `du > 0` on `N × K`, `dw > 0` on `(D-1) × K` (probability one) - `u` either random
+(`hysc = none`) or around a non-negative matrix with a positive entry (`hysc = some X`: the spectral baseline or the input
+of `initialize_u0`, noise level `> 0`), `w` either random or around a non-negative input of `initialize_w0` that is positive
+on the occurring sizes: along every list of sweeps the log-likelihood evaluated from its definition never decreases. -/
+theorem C17_ascent_from_draws (c : Cfg ℝ) (hS : Setup c) (r0 : Bool) (hysc winit : Option (Mat ℝ)) (noise : ℝ)
+    (hn : 0 < noise)
+    (hX : ∀ X, hysc = some X → (∀ i k, 0 ≤ at2 X i k) ∧ ∃ i k, i < c.N ∧ k < c.K ∧ 0 < at2 X i k)
+    (hW : ∀ W, winit = some W → (∀ d k, 0 ≤ at2 W d k) ∧
+      ∀ e, e < c.E → ∀ k, k < c.K → 0 < at2 W ((c.edge e).length - 2) k)
+    (uk : List ℝ) (huk : ∀ x ∈ uk, 0 ≤ x) (du dw : Mat ℝ)
+    (hdu : ∀ i k, i < c.N → k < c.K → 0 < at2 du i k) (hdw : ∀ d k, d < c.D - 1 → k < c.K → 0 < at2 dw d k)
+    (perms : List (List Nat)) (p : List Nat) (hp : ∀ q ∈ perms ++ [p], ∀ i ∈ q, i < c.N) :
+    LL c (perms.foldl (emSweep c) (initFromDraws c r0 hysc winit noise uk du dw [])).u
+         (perms.foldl (emSweep c) (initFromDraws c r0 hysc winit noise uk du dw [])).w
+      ≤ LL c ((perms ++ [p]).foldl (emSweep c) (initFromDraws c r0 hysc winit noise uk du dw [])).u
+             ((perms ++ [p]).foldl (emSweep c) (initFromDraws c r0 hysc winit noise uk du dw [])).w := by
+  have hu0 : ∀ i k, i < c.N → k < c.K → c.isIso i = false → 0 < at2 (u0Of c hysc noise du) i k := by
+    intro i k hi hk _
+    unfold u0Of
+    cases hh : hysc with
+    | none => exact randU0_pos c du hdu i k hi hk
+    | some X => exact addNoise_pos c.N c.K noise hn X du (hX X hh).1 (hX X hh).2 hdu i k hi hk
+  have hw0 : ∀ e, e < c.E → ∀ k, k < c.K → 0 < at2 (w0Of c winit noise dw) ((c.edge e).length - 2) k := by
+    intro e he k hk
+    have hs := hS.esize e he
+    have hd : (c.edge e).length - 2 < c.D - 1 := by omega
+    unfold w0Of
+    cases hh : winit with
+    | none =>
+      rw [randW0_at c dw _ k hd hk, if_pos (sizePresent_edge c e he hs.1)]
+      exact hdw _ k hd hk
+    | some W =>
+      exact lt_of_lt_of_le ((hW W hh).2 e he k hk)
+        (addNoise_ge (c.D - 1) c.K noise hn.le W dw (hW W hh).1 (fun d k hd hk => (hdw d k hd hk).le) _ k hd hk)
+  have hw0n : ∀ d k, 0 ≤ at2 (w0Of c winit noise dw) d k := by
+    intro d k
+    unfold w0Of
+    cases hh : winit with
+    | none => exact randW0_nonneg c dw (fun d k hd hk => (hdw d k hd hk).le) d k
+    | some W =>
+      unfold addNoise
+      apply at2_tab2_nonneg
+      intro d k hd hk
+      have := mul_nonneg (mul_nonneg (matMax_nonneg (c.D - 1) c.K W (hW W hh).1) hn.le) (hdw d k hd hk).le
+      have := (hW W hh).1 d k
+      linarith
+  exact C17_ascent_run c hS r0 uk huk _ _ hu0 hw0 hw0n perms p hp
+
+/-- **ascent with `fix_w` / `fix_communities`.**  `emSweepFix` is `_update_em` for any setting of the two flags (both off:
+`emSweep`).  Under the hypotheses of `C17_ascent` the log-likelihood does not decrease for ANY setting - each half of the sweep
+ascends on its own -, the hypotheses hold again afterwards, and a fixed parameter is returned untouched. -/
+theorem C17_ascent_fixed (c : Cfg ℝ) (hS : Setup c) (fixW fixU : Bool) (s : St ℝ) (hI : Inv c s) (hP : Pos c s.u s.w)
+    (hZ : IsoZero c s.u) (hrho : s.rho = rhoUpdate c s.u s.w) (perm : List Nat) (hp : ∀ i ∈ perm, i < c.N) :
+    LL c s.u s.w ≤ LL c (emSweepFix c fixW fixU s perm).u (emSweepFix c fixW fixU s perm).w ∧
+    Inv c (emSweepFix c fixW fixU s perm) ∧
+    Pos c (emSweepFix c fixW fixU s perm).u (emSweepFix c fixW fixU s perm).w ∧
+    IsoZero c (emSweepFix c fixW fixU s perm).u ∧
+    (emSweepFix c fixW fixU s perm).rho
+      = rhoUpdate c (emSweepFix c fixW fixU s perm).u (emSweepFix c fixW fixU s perm).w ∧
+    (fixW = true → (emSweepFix c fixW fixU s perm).w = s.w) ∧
+    (fixU = true → (emSweepFix c fixW fixU s perm).u = s.u) ∧
+    emSweepFix c false false s perm = emSweep c s perm := by
+  obtain ⟨a1, a2, a3, a4, a5, a6⟩ := wHalf_good hS fixW s hI hP hZ hrho
+  obtain ⟨b1, b2, b3, b4, b5, b6⟩ := uHalf_good hS fixU (wHalf c fixW s) a2 a3 a4 a5 perm hp
+  refine ⟨le_trans a1 b1, b2, b3, b4, b5, ?_, ?_, rfl⟩
+  · intro h; subst h
+    show (uHalf c fixU (wHalf c true s) perm).w = s.w
+    rw [b6]; rfl
+  · intro h; subst h
+    show (uHalf c true (wHalf c fixW s) perm).u = s.u
+    exact a6
+
+/-- **termination of the EM loop of one realisation**, for every `check_convergence_every`, tolerance, threshold,
+`max_iter` and every sequence of likelihood values: the loop makes at most `max_iter` sweeps; if it ends without the
+convergence flag it made exactly `max_iter` of them (as many as values were supplied); if it ends with the flag, the
+tolerance was met on more than `threshold_for_convergence` consecutive recorded checks, so more than that many sweeps were
+made; every `train_info` row belongs to an iteration that is a multiple of `check_convergence_every`. -/
+theorem C17_termination {α : Type} [Sub α] [Zero α] [LT α] [DecidableLT α] (tol : α) (thr every maxIter : Nat) (inf : α)
+    (Ls : List α) :
+    (runReal tol thr every maxIter inf Ls).it ≤ maxIter ∧ (runReal tol thr every maxIter inf Ls).it ≤ Ls.length ∧
+    ((runReal tol thr every maxIter inf Ls).conv = false →
+      (runReal tol thr every maxIter inf Ls).it = min maxIter Ls.length) ∧
+    ((runReal tol thr every maxIter inf Ls).conv = true →
+      thr < (runReal tol thr every maxIter inf Ls).nTol ∧
+      (runReal tol thr every maxIter inf Ls).nTol ≤ (runReal tol thr every maxIter inf Ls).rows.length ∧
+      thr < (runReal tol thr every maxIter inf Ls).it) ∧
+    (∀ r ∈ (runReal tol thr every maxIter inf Ls).rows,
+      r.1 % every = 0 ∧ r.1 < (runReal tol thr every maxIter inf Ls).it) := by
+  unfold runReal
+  have h0 : LoopInv thr every ({ loglik := inf, nTol := 0, conv := false, it := 0, rows := [] } : Conv α) :=
+    ⟨Nat.le_refl _, Nat.le_refl _, by simp, by simp⟩
+  obtain ⟨hI, h1, h2, _, h4⟩ := go_spec tol thr every maxIter Ls _ h0
+  simp only [Nat.zero_add] at h1 h2 h4
+  refine ⟨h1, h2, h4, ?_, hI.mult⟩
+  intro hc
+  have := hI.flag hc
+  have := hI.tolRows
+  have := hI.rowsIt
+  exact ⟨by omega, by omega, by omega⟩
+
+/-! ## non-vacuity of the extension theorems -/
+
+/-- `C17_ascent_from_draws` on the concrete weighted hypergraph `cEx`, random start, all raw draws equal to one -/
+example (perms : List (List Nat)) (p : List Nat) (hp : ∀ q ∈ perms ++ [p], ∀ i ∈ q, i < cEx.N) :
+    LL cEx (perms.foldl (emSweep cEx) (initFromDraws cEx false none none (1 / 1000) [1]
+        (tab2 3 1 (fun _ _ => 1)) (tab2 2 1 (fun _ _ => 1)) [])).u
+      (perms.foldl (emSweep cEx) (initFromDraws cEx false none none (1 / 1000) [1]
+        (tab2 3 1 (fun _ _ => 1)) (tab2 2 1 (fun _ _ => 1)) [])).w
+    ≤ LL cEx ((perms ++ [p]).foldl (emSweep cEx) (initFromDraws cEx false none none (1 / 1000) [1]
+        (tab2 3 1 (fun _ _ => 1)) (tab2 2 1 (fun _ _ => 1)) [])).u
+      ((perms ++ [p]).foldl (emSweep cEx) (initFromDraws cEx false none none (1 / 1000) [1]
+        (tab2 3 1 (fun _ _ => 1)) (tab2 2 1 (fun _ _ => 1)) [])).w :=
+  C17_ascent_from_draws cEx cEx_setup false none none (1 / 1000) (by norm_num) (by intro X h; cases h)
+    (by intro W h; cases h) [1] (by simp)
+    _ _ (fun i k hi hk => by rw [at2_tab2 3 1 _ _ _ (show i < 3 from hi) (show k < 1 from hk)]; exact one_pos)
+    (fun d k hd hk => by rw [at2_tab2 2 1 _ _ _ (show d < 2 from hd) (show k < 1 from hk)]; exact one_pos) perms p hp
+/-- `C17_ascent_fixed` on `cEx`: the state after the initialisation satisfies its hypotheses, for every setting of the flags -/
+example (fixW fixU : Bool) (perm : List Nat) (hp : ∀ i ∈ perm, i < cEx.N) :
+    LL cEx (initState cEx true [1] [[1], [2], [3]] [[1], [5]] []).u (initState cEx true [1] [[1], [2], [3]] [[1], [5]] []).w
+      ≤ LL cEx (emSweepFix cEx fixW fixU (initState cEx true [1] [[1], [2], [3]] [[1], [5]] []) perm).u
+          (emSweepFix cEx fixW fixU (initState cEx true [1] [[1], [2], [3]] [[1], [5]] []) perm).w :=
+  (C17_ascent_fixed cEx cEx_setup fixW fixU _ (initState_inv cEx cEx_setup.cfgOk true [1] (by simp) _ _ [])
+    (initState_pos cEx_setup true [1] _ _ [] cEx_init.1 cEx_init.2.1 cEx_init.2.2).1
+    (initState_pos cEx_setup true [1] _ _ [] cEx_init.1 cEx_init.2.1 cEx_init.2.2).2
+    (initState_rho cEx_setup true [1] _ _ []) perm hp).1
+/-- the same with the spectral start: the hypothesis on the HySC matrix holds for a 0/1 matrix with a 1 -/
+example : (∀ i k, 0 ≤ at2 ([[1], [1], [0]] : Mat ℝ) i k) ∧ ∃ i k, i < cEx.N ∧ k < cEx.K ∧ 0 < at2 ([[1], [1], [0]] : Mat ℝ) i k :=
+  ⟨at2_nonneg_of _ (by intro r hr x hx; simp at hr; rcases hr with rfl | rfl | rfl <;> simp at hx <;> rw [hx] <;> norm_num),
+   0, 0, by decide, by decide, by simp [at2]⟩
+/-- raw draws over the integers: the row of the absent size 4 is zeroed, the others are the draws -/
+example : randW0 ({ N := 4, K := 2, D := 4, edges := [[0, 1], [0, 1, 2, 3]], A := [1, 1], minv := 0, maxv := none, eps := 0, rtol := 1, normU := false } : Cfg Int) [[3, 4], [5, 6], [7, 8]] = [[3, 4], [0, 0], [7, 8]] := by decide
+example : matMax 2 2 ([[0, 1], [1, 0]] : Mat Int) = 1 ∧
+    addNoise 2 2 (2 : Int) [[0, 1], [1, 0]] [[3, 4], [5, 6]] = [[6, 9], [11, 12]] := by decide
+/-- the clamps on integers (`min_value_par = 2`, upper bound 10 replaced by 10) -/
+example : let c : Cfg Int := { N := 1, K := 1, D := 2, edges := [], A := [], minv := 2, maxv := some (10, 10), eps := 0, rtol := 1, normU := false }
+    [clampHigh c (clampLow c 1), clampHigh c (clampLow c 2), clampHigh c (clampLow c 7), clampHigh c (clampLow c 11)] = [0, 2, 7, 10] := by
+  decide
+/-- termination with `check_convergence_every = 2`, tolerance 1, threshold 1, `max_iter = 9`: the flag is set at the third
+recorded check (iteration 4), the loop stops after 5 sweeps, rows at iterations 0, 2, 4 -/
+example : ((runReal (1 : Int) 1 2 9 (-100) [-9, -9, -9, -7, -9, -3, -3, -3, -3]).it,
+    (runReal (1 : Int) 1 2 9 (-100) [-9, -9, -9, -7, -9, -3, -3, -3, -3]).conv,
+    (runReal (1 : Int) 1 2 9 (-100) [-9, -9, -9, -7, -9, -3, -3, -3, -3]).rows.map (fun r => r.1)) = (5, true, [4, 2, 0]) := by
+  decide
+/-- the Laplacian's combinatorial part on a hypergraph with an isolated node: degrees, and a non-empty `EdgesOk` instance -/
+example : let c : Cfg Int := { N := 4, K := 2, D := 3, edges := [[0, 1], [0, 1, 2]], A := [1, 2], minv := 0, maxv := none, eps := 0, rtol := 1, normU := false }
+    (List.range 4).map (degN c) = [2, 2, 1, 0] := by decide
+example : EdgesOk cEx := by
+  refine ⟨fun e he => (cEx_setup.esorted e he).imp (fun h => Nat.ne_of_lt h), cEx_setup.enodes, ?_⟩
+  intro e he h
+  have := (cEx_setup.esize e he).1
+  rw [h] at this; simp at this
